@@ -41,15 +41,18 @@ class Shadow:
     def targets(self):
         return [i for i in self.o if not self.owned(i)]
     def refkeys(self, o): return o['kind'] in MAPS and o['kt'] == 'R'
-    def refvals(self, o): return o['vt'] in 'RX' if (o['kind'] in ARR or o['kind'] in MAPS) else True
+    def refvals(self, o): return o['vt'] in 'RXD' if (o['kind'] in ARR or o['kind'] in MAPS) else True
+    def is_deep(self, o): return (o['kind'] in ARR or o['kind'] in MAPS) and o['vt'] == 'D'     # elements `o<b>` stand for the objects b, b+1, b+2
     def out_edges(self, i):
         o = self.o[i]; e = [int(t[1:]) for t in o['el'] if t[0] == 'o'] if self.refvals(o) else []
+        if self.is_deep(o): e = [b + f for b in e for f in (0, 1, 2)]
         if self.refkeys(o): e += list(o['key'])
         return e
     def has_incoming(self, i, except_slot=None):
         for j, o in self.o.items():
             if j == i: continue
             if ('o%d' % i) in o['el']: return True
+            if self.is_deep(o) and any(t[0] == 'o' and int(t[1:]) <= i <= int(t[1:]) + 2 for t in o['el']): return True
             if self.refkeys(o) and i in o['key']: return True
         for s, t in enumerate(self.roots):
             if s != except_slot and t == 'o%d' % i: return True
@@ -105,6 +108,7 @@ class Shadow:
     def can_assign(self, d, s):
         if d == s or d not in self.o or s not in self.o: return False
         od, os_ = self.o[d], self.o[s]
+        if self.is_deep(od) or self.is_deep(os_): return False      # ProbeDeep elements: dassign / dconcat only
         if od['kind'] in ARR and os_['kind'] in ARR: return True
         if od['kind'] in ARR and os_['kind'] == 'H':
             return all(t[0] == 'o' and int(t[1:]) in self.o and self.o[int(t[1:])]['kind'] != 'B' for t in os_['el'])
@@ -277,6 +281,76 @@ class Shadow:
     def cin(self, k, op):
         self.inner_apply(op)
         self.emit(f'cin {k} | {self.inner_text(op)}'); self.checkpoint()
+    # ---- containers of ProbeDeep elements (letter D): the element type's Assign instance allocates a fresh object per field (3 fields); a
+    #      collection at an ALLOCATION POINT of the operation (4 per assigned element: in front of each allocation, behind the last store)
+    def fresh3(self, n=1):
+        b = self.next_id; self.next_id += 3 * n
+        return b
+    def deep_ok(self, op):
+        name, i = op[0], op[1]
+        if i not in self.o: return False
+        o = self.o[i]
+        if not self.is_deep(o) or o.get('raw') or self.owned(i): return False
+        def tk(t): return t == 'n' or (t[0] == 'o' and self.tok_ok(t))
+        n = len(o['el'])
+        if name == 'dpush': return o['kind'] in ARR and tk(op[3])
+        if name == 'dins': return o['kind'] in ARR and 0 <= op[2] <= n and not (o['kind'] == 'L' and op[2] == n and n != 0) and tk(op[4])
+        if name == 'daset': return o['kind'] in ARR and 0 <= op[2] < n and tk(op[4])
+        if name == 'dtset': return o['kind'] in MAPS and o['kt'] == 'I' and tk(op[4])
+        if name in ('dconcat', 'dassign'):
+            s = op[2]
+            if s not in self.o or s == i or self.o[s].get('raw') or self.owned(s): return False
+            return self.is_deep(self.o[s]) and o['kind'] in ARR and self.o[s]['kind'] in ARR
+        return False
+    def deep_count(self, op): return len(self.o[op[2]]['el']) if op[0] in ('dconcat', 'dassign') else 1
+    def deep_safe(self, op, k):
+        """1: modelled; 0: KF-C01-array-uninit-slots; 2: KF-C01-unlinked-entry-assign (the entry is assigned outside the structure)"""
+        o = self.o[op[1]]; ne = self.deep_count(op)
+        if k >= 4 * ne: return 1
+        i, kk = divmod(k, 4)
+        if o['kind'] == 'A': return 0 if (op[0] in ('dconcat', 'dassign') and i + 1 != ne) else 1
+        if o['kind'] == 'L': return 1 if (op[0] == 'daset' or kk == 0) else 2
+        if o['kind'] == 'T': return 1 if kk == 0 else 2
+        return 1 if (op[2] in o['key'] or kk == 0) else 2
+    def deep_all_safe(self, op): return all(self.deep_safe(op, k) == 1 for k in range(4 * self.deep_count(op)))
+    def deep_points(self, op):
+        """the allocation points at which a collection is modelled"""
+        return [k for k in range(4 * self.deep_count(op)) if self.deep_safe(op, k) == 1]
+    def deep_apply(self, op):
+        name, i = op[0], op[1]; o = self.o[i]
+        def mk(b, toks):
+            for f in range(3):
+                self.o[b + f] = dict(kind='P', k=1, root=False, owner=None, el=[toks[f]], key=[], kt='R', vt='R'); self.used.add(b + f)
+        if name in ('dconcat', 'dassign'):
+            src = list(self.o[op[2]]['el']); b = op[3]; new = []
+            for n_, t in enumerate(src):
+                sb = int(t[1:]); mk(b + 3 * n_, [f'o{sb + f}' for f in range(3)]); new.append(f'o{b + 3 * n_}')
+            o['el'] = (o['el'] if name == 'dconcat' else []) + new
+            return
+        b, t = (op[2], op[3]) if name == 'dpush' else (op[3], op[4])
+        mk(b, [t, t, t]); e = f'o{b}'
+        if name == 'dpush': o['el'].append(e)
+        elif name == 'dins': o['el'].insert(op[2], e)
+        elif name == 'daset': o['el'][op[2]] = e
+        else:
+            if op[2] in o['key']: o['el'][o['key'].index(op[2])] = e
+            else: o['key'].append(op[2]); o['el'].append(e)
+    def deep_operands(self, op):
+        return [f'o{op[1]}'] + ([f'o{op[2]}'] if op[0] in ('dconcat', 'dassign') else [op[-1]] if op[-1][0] == 'o' else [])
+    def dplain(self, op):
+        self.deep_apply(op); self.emit(self.inner_text(op))
+        if self.full: self.checkpoint()
+    def dxin(self, k, words, op):
+        safe = self.deep_safe(op, k); ne = self.deep_count(op); extra = self.deep_operands(op)
+        self.deep_apply(op)
+        if safe == 1 and k < 4 * ne:
+            live = self.reach(words=list(words) + extra)
+            for j in list(self.o):
+                if j not in live and not self.israw(j): del self.o[j]
+        self.emit(f"xin {k} {' '.join(words)}{' ' if words else ''}| {self.inner_text(op)}")
+    def dcin(self, k, op):
+        self.deep_apply(op)
+        self.emit(f'cin {k} | {self.inner_text(op)}'); self.checkpoint()
     def xcollect(self, words):
         live = self.reach(words=words)
         for i in list(self.o):
@@ -323,10 +397,10 @@ FOCUS_KINDS = ['P', 'P', 'R', 'A', 'L', 'T', 'T', 'U', 'E', 'F', 'H', 'A', 'T']
 
 def rand_types(rng, letter, focus=False):
     """type argument of `new` for a container: mostly the default (reference-bearing), sometimes leaf / mixed types"""
-    if focus and letter in ARR: return rng.choice(['-', 'R', 'I', 'S', 'F', 'I', 'X'])
-    if focus and letter in 'TUEF': return rng.choice(['-', 'II', 'SI', 'IS', 'SR', 'IR', 'IF', 'SS', 'RR', 'RI', 'SI', 'II', 'IX', 'SX'])
-    if letter in ARR: return rng.choice(['-', '-', 'R', 'I', 'S', 'F', 'I', 'X', 'X'])
-    if letter in 'TUEF': return rng.choice(['-', '-', '-', 'II', 'SI', 'IS', 'SR', 'RI', 'IF', 'SS', 'RR', 'IR', 'RF', 'SF', 'IX', 'IX', 'SX'])
+    if focus and letter in ARR: return rng.choice(['-', 'R', 'I', 'S', 'F', 'I', 'X', 'D'])
+    if focus and letter in 'TUEF': return rng.choice(['-', 'II', 'SI', 'IS', 'SR', 'IR', 'IF', 'SS', 'RR', 'RI', 'SI', 'II', 'IX', 'SX', 'ID'])
+    if letter in ARR: return rng.choice(['-', '-', 'R', 'I', 'S', 'F', 'I', 'X', 'X', 'D'])
+    if letter in 'TUEF': return rng.choice(['-', '-', '-', 'II', 'SI', 'IS', 'SR', 'RI', 'IF', 'SS', 'RR', 'IR', 'RF', 'SF', 'IX', 'IX', 'SX', 'ID'])
     return '-'
 
 def retype(rng, sh, cands, new_slot_fn):
@@ -344,7 +418,9 @@ def retype(rng, sh, cands, new_slot_fn):
         if not srcs: return False
         sh.assign(d, rng.choice(srcs))
     elif q < 0.80:
-        sh.copy(rng.choice(conts), new_slot_fn())
+        c = [x for x in conts if not sh.is_deep(sh.o[x])]
+        if not c: return False
+        sh.copy(rng.choice(c), new_slot_fn())
     elif q < 0.90:
         c = [x for x in conts if sh.o[x]['kind'] != 'H']
         if not c: return False
@@ -386,7 +462,7 @@ def mutate(rng, sh, cands_fn, new_slot_fn):
             t = mk(rng.choice(['P', 'R', 'A', 'H']), slot)
             c2 = [c for c in cands_fn() if c != t and not sh.owned(c) and not (sh.o[t]['kind'] == 'H' and sh.israw(c))]
             if c2 and sh.o[t]['kind'] in WORDS: sh.store(t, 0, 'o%d' % rng.choice(c2))
-            elif c2: sh.push(t, 'o%d' % rng.choice(c2))
+            elif c2 and not sh.is_deep(sh.o[t]): sh.push(t, 'o%d' % rng.choice(c2))
             if t in sh.o and t not in sh.ghost and not sh.has_incoming(t, slot): sh.new('B', slot=slot, boxtgt=t)   # full mode: the box takes over the target's slot
             return
         mk(kind, new_slot_fn(), root=rng.random() < (0.04 if sh.full else 0.08))
@@ -399,6 +475,17 @@ def mutate_existing(rng, sh, cands):
     if not cands: return
     i = rng.choice(cands); o = sh.o[i]; k = o['kind']
     tg = [c for c in cands if not sh.owned(c)]
+    if sh.is_deep(o):
+        # elements of type ProbeDeep enter through the deep ops only; removal is the ordinary op
+        if o['el'] and rng.random() < 0.5:
+            if k in ARR: sh.pop(i, rng.randrange(len(o['el'])))
+            else: sh.trem(i, rng.choice(o['key']))
+        elif not sh.owned(i) and not o.get('raw') and not sh.stale:
+            t = rand_tok(rng, sh, tg, junk=False)
+            op = ('dpush', i, sh.fresh3(), t) if k in ARR else ('dtset', i, rng.choice(o['key']) if (o['key'] and rng.random() < 0.5) else rng.randrange(-5, 40), sh.fresh3(), t)
+            # full mode: a threshold collection may run at any allocation of the operation (known-finding territory for List / Table / Tree)
+            if sh.deep_ok(op) and (not sh.full or sh.deep_all_safe(op)): sh.dplain(op)
+        return
     if k in 'MH': tg = [c for c in tg if not sh.israw(c)]     # a Mark instance would hand the raw pointer to the callback
     if k in 'PRQ': sh.store(i, rng.randrange(o['k']), rand_tok(rng, sh, tg))
     elif k == 'M': sh.store(i, rng.randrange(4), rand_tok(rng, sh, tg, junk=False))
@@ -482,6 +569,41 @@ def mk_x(rng, sh, slot=None):
     """a container of ProbeE elements / values"""
     l = rng.choice('ALTE'); return sh.new(l, arg='X' if l in ARR else rng.choice(['IX', 'IX', 'SX']), slot=slot)
 
+def mk_d(rng, sh, slot=None, letters='AALTE'):
+    """a container of ProbeDeep elements / values"""
+    l = rng.choice(letters); return sh.new(l, arg='D' if l in ARR else 'ID', slot=slot)
+
+def rand_deep(rng, sh, cands, tg):
+    """an operation that assigns ProbeDeep elements (their Assign instance allocates), on a live container; None when there is none"""
+    ds = [c for c in cands if sh.is_deep(sh.o[c]) and not sh.o[c].get('raw') and not sh.owned(c)]
+    if not ds: return None
+    def tok(): return rand_tok(rng, sh, tg, junk=False)
+    for _ in range(6):
+        i = rng.choice(ds); o = sh.o[i]; n = len(o['el']); q = rng.random()
+        if o['kind'] in ARR:
+            if q < 0.35: op = ('dpush', i, 0, tok())
+            elif q < 0.55: op = ('dins', i, rng.choice([0, n // 2, max(0, n - 1), n if o['kind'] == 'A' else 0]), 0, tok())
+            elif q < 0.75 and n: op = ('daset', i, rng.randrange(n), 0, tok())
+            else:
+                srcs = [c for c in ds if c != i and sh.o[c]['kind'] in ARR and len(sh.o[c]['el']) <= 6]
+                if not srcs: continue
+                op = (rng.choice(['dconcat', 'dassign']), i, rng.choice(srcs), 0)
+        else:
+            op = ('dtset', i, rng.choice(o['key']) if (o['key'] and rng.random() < 0.5) else rng.choice([rng.randrange(-5, 40), rng.randrange(40) * 1265 + 3]), 0, tok())
+        if not sh.deep_ok(op): continue
+        if sh.full and not sh.deep_all_safe(op): continue
+        b = sh.fresh3(max(1, sh.deep_count(op)))
+        if op[0] == 'dpush': return op[:2] + (b,) + op[3:]
+        if op[0] in ('dconcat', 'dassign'): return op[:3] + (b,)
+        return op[:3] + (b,) + op[4:]
+    return None
+
+def rand_point(rng, sh, op):
+    """an allocation point at which the collection is modelled (sometimes past the last one: no collection)"""
+    ks = sh.deep_points(op)
+    if not ks or rng.random() < 0.06: return 4 * sh.deep_count(op) + rng.randrange(2)
+    return rng.choice(ks)
+
 def gen_exact(rng, nops, maxobj, ncollect, focus=False, mid=False):
     sh = Shadow(False); sh.focus = focus
     every = max(3, nops // max(1, ncollect))
@@ -518,6 +640,14 @@ def gen_exact(rng, nops, maxobj, ncollect, focus=False, mid=False):
         elif r < 0.08 and alive:
             c = [i for i in alive if not sh.has_incoming(i) and sh.o[i]['kind'] != 'Y']
             if c: sh.delete(rng.choice(c))
+        elif r < (0.30 if mid else 0.12) and not sh.stale and rng.random() < 0.4:
+            # a collection at an allocation point of an element's Assign instance (ProbeDeep elements)
+            op = rand_deep(rng, sh, alive, sh.targets())
+            if op is None:
+                if len(alive) < maxobj: mk_d(rng, sh)
+            else:
+                tg = sh.targets()
+                sh.dxin(rand_point(rng, sh, op), [rand_tok(rng, sh, tg) for _ in range(rng.choice([0, 0, 1, 2]))], op)
         elif r < (0.30 if mid else 0.12) and not sh.stale:
             op = rand_inner(rng, sh, alive, sh.targets())
             if op is None:
@@ -561,6 +691,11 @@ def gen_full(rng, nops, nslots, focus=False, mid=False):
         elif r < (0.40 if mid else 0.29):
             # a threshold collection INSIDE a container operation (the k-th ProbeE destructor / Assign call allocates past the threshold)
             free = [i for i in lv if not sh.owned(i)]
+            if rng.random() < 0.4:
+                op = rand_deep(rng, sh, lv, free)
+                if op is None: mk_d(rng, sh, rng.randrange(nslots), letters='A')
+                else: sh.dcin(rand_point(rng, sh, op), op)
+                continue
             op = rand_inner(rng, sh, lv, free)
             if op is None: mk_x(rng, sh, rng.randrange(nslots))
             else: sh.cin(rand_k(rng, sh, op), op)
@@ -928,6 +1063,68 @@ def shape_cases(quick):
             sh.cin(0, ('clear', c)); sh.collect()
         cs.append(Case('full_mid_op', sh.lines, meta=dict(stats=sh.stats)))
     fullmid()
+    # ---- element types whose Assign instance ALLOCATES: a collection at every allocation point of push / push_at / set / concat / assign
+    def deep_matrix(sh):
+        keep = sh.new('P', arg='2')
+        for letter, arg in (('A', 'D'), ('L', 'D'), ('T', 'ID'), ('E', 'ID')):
+            seqk = letter in ARR
+            def build(n):
+                c = sh.new(letter, arg=arg)
+                for j in range(n):
+                    sh.dplain(('dpush', c, sh.fresh3(), f'o{keep}') if seqk else ('dtset', c, 10 * j + 3, sh.fresh3(), f'o{keep}'))
+                return c
+            def every_point(c, mkop, also=()):
+                # the same operation once per modelled allocation point; the container stays the sole path to the copies
+                op0 = mkop(0)
+                for k in sh.deep_points(op0) + [4 * sh.deep_count(op0)]:
+                    op = mkop(sh.fresh3(max(1, sh.deep_count(op0))))
+                    sh.dxin(k, [f'o{x}' for x in also], op)
+                    sh.xcollect([f'o{c}'] + [f'o{x}' for x in also])
+            c = build(2)
+            if seqk:
+                every_point(c, lambda b: ('dpush', c, b, f'o{keep}'))
+                for pos in (0, 1):
+                    every_point(c, lambda b: ('dins', c, pos, b, 'n'))
+                if letter == 'A': every_point(c, lambda b: ('dins', c, len(sh.o[c]['el']), b, f'o{keep}'))
+                every_point(c, lambda b: ('daset', c, 1, b, f'o{keep}'))
+                for j in range(7):              # crosses Array_Reserve_More (realloc moves the block under the element being assigned)
+                    sh.dxin(1 + j % 3 if letter == 'A' else 0, [], ('dpush', c, sh.fresh3(), 'n'))
+                sh.xcollect([f'o{c}'])
+                s1 = build(1); s3 = build(3); d = build(2)
+                every_point(c, lambda b: ('dconcat', c, s1, b), also=(s1, s3, d))
+                every_point(c, lambda b: ('dconcat', c, s3, b), also=(s1, s3, d))
+                every_point(d, lambda b: ('dassign', d, s3, b), also=(s1, s3, c))
+                every_point(d, lambda b: ('dassign', d, s1, b), also=(s1, s3, c))
+                sh.xcollect([f'o{c}', f'o{d}'])
+            else:
+                every_point(c, lambda b: ('dtset', c, 13, b, f'o{keep}'))       # the key exists
+                every_point(c, lambda b: ('dtset', c, 777, b, 'n'))             # a new key (point 0 only: the entry is built outside the structure)
+                every_point(c, lambda b: ('dtset', c, -4, b, f'o{keep}'))
+            sh.xcollect([f'o{c}'])
+        sh.xcollect([])
+    ex('deep_assign_matrix', deep_matrix)
+    def fulldeep():
+        sh = Shadow(True)
+        keep = sh.new('P', arg='2', slot=1)
+        c = sh.new('A', arg='D', slot=0)
+        for rnd in range(3):
+            for k in range(5):
+                sh.dcin(k, ('dpush', c, sh.fresh3(), f'o{keep}'))               # the demo of seeded change c01_l (threshold collection inside the push)
+            sh.collect()
+            n = len(sh.o[c]['el'])
+            for k in range(4):
+                sh.dcin(k, ('dins', c, [0, n // 2, len(sh.o[c]['el'])][k % 3], sh.fresh3(), 'n'))
+                sh.dcin(3 - k, ('daset', c, k, sh.fresh3(), f'o{keep}'))
+            sh.churn(30); sh.collect()
+        s1 = sh.new('A', arg='D', slot=2); sh.dplain(('dpush', s1, sh.fresh3(), f'o{keep}'))
+        for k in range(4):
+            sh.dcin(k, ('dconcat', c, s1, sh.fresh3()))
+        d = sh.new('A', arg='D', slot=3)
+        for k in range(4):
+            sh.dcin(k, ('dassign', d, s1, sh.fresh3()))
+        sh.root(2, 'n'); sh.collect(); sh.churn(20); sh.collect()
+        cs.append(Case('full_deep_assign', sh.lines, meta=dict(stats=sh.stats)))
+    fulldeep()
     bad = ['mode exact', 'new 0 P 3 -', 'new 0 Q - -', 'new 0 P 2 -', 'new 0 R - -', 'store 0 2 n', 'store 0 0 o9', 'store 0 0 x1', 'push 0 o0', 'new 1 H - -',
            'push 1 n', 'pop 1 0', 'tset 1 0 o0', 'trem 1 0', 'tlsrem 5', 'tls 99 n', 'root 64 n', 'del 7', 'collect', 'churn 3', 'mode full', 'new 2 B 0 -', 'new 3 B 0 -',
            'store 1 0 o0', 'push 1 o0', 'del 0', 'xcollect o0 zz', 'xcollect o1', 'frobnicate', 'new 4 P 1 s70', 'chain 10 0 R -', 'chain 10 3 Q -', 'chain 10 3 R -', 'chain 11 2 R -',
@@ -1001,7 +1198,19 @@ class C01(Spec):
                   'C01_mid_op_collection_safe turns that into: a collection inside the call does not put on the pending list anything that is reachable when '
                   'the operation completes. The order `nitems--` before `destruct` in Array_Pop_At is refuted (C01_array_pop_at_dec_first_refuted). Refuted '
                   'on the unchanged tree (proposed known findings): List_Clear / Tree_Clear_Entry present freed cells to a collection inside the destructor '
-                  'of any element but the first, Array_Assign / Array_Concat (and Array_New) count unconstructed slots while the elements are assigned.')
+                  'of any element but the first, Array_Assign / Array_Concat (and Array_New) count unconstructed slots while the elements are assigned. '
+                  'Element types whose Assign instance ALLOCATES (a record of several managed fields, each obtained by new / copy inside Assign: a deep copy): '
+                  'every allocation is a point at which a threshold collection can run while the fields stored so far are reachable through the element under '
+                  'assignment only. Mid.DMach runs the same statement lists and records what the Mark instance presents at every allocation point (AView: the '
+                  'target element in its partly assigned state); DeepSafe = only constructed cells, every kept element, and the element under assignment as soon '
+                  'as it holds a new field. Proved for every content / index / block size / element type for the operations that publish the element before '
+                  'they assign it — Array_Push, Array_Push_At (nitems++ and Array_Alloc first), Array_Set, List_Set, Tree_Set on an existing key '
+                  '(C01_array_push_deep_safe, C01_array_push_at_deep_safe, C01_seq_set_deep_safe, C01_tree_set_deep_safe) — and turned into the property by '
+                  'C01_deep_op_collection_safe (a collection at that point, with no extra root, keeps everything reachable through the kept elements and the '
+                  'stored fields). The order `nitems++` behind `assign` is refuted (C01_array_push_count_after_assign_refuted, '
+                  'C01_array_push_at_count_after_assign_refuted: the model run loses the first field). Refuted on the unchanged tree (proposed known finding '
+                  'KF-C01-unlinked-entry-assign, C01_entry_assign_deep_safe_refuted): List_Push / List_Push_At / Table_Set_Move / Tree_Set on a new key assign the '
+                  'entry while it lies outside the structure.')
     level_note = ('Trusted: Lean kernel; axioms propext/Quot.sound/Classical.choice at most; translate/g_gcmark.py (regex over GC.c and the Mark instances); the '
                   'harness/driver comparison (testing); the registry lookup inside GC_Mark_Item is abstracted as a finite map (its correctness is C17). '
                   'Not covered: recursion depth of the C marker (known finding F27: chains of about 10^5 links overflow the C stack), dangling pointers in '
@@ -1028,6 +1237,12 @@ class C01(Spec):
             'trem / clear / trunc / assign / concat runs mark phases on the words, the container and the operand, then the real GC_Sweep; mark bits and swept set are '
             'compared with the model run on the intermediate state) and `cin k | op` (full mode: that call allocates until the threshold triggers the real GC_Mark / '
             'GC_Sweep); the oracle\'s reference is the shadow graph AFTER the operation plus the operand; the matrix kind x operation x position x call index; '
+            'containers whose elements / values are ProbeDeep (letter D: a record of three managed fields whose Assign instance allocates a fresh registered object per '
+            'field): dpush / dins / daset / dtset / dconcat / dassign, plain or with a collection at a chosen ALLOCATION POINT (four per assigned element: in front of each '
+            'allocation and behind the last store) — `xin k` exact (mark phases on the words, the container and the operand, real GC_Sweep; marked and swept sets compared with '
+            'the model, which runs the statement lists on Mid.DMach and collects on the heap holding exactly the fresh objects that exist at that point), `cin k` full (the '
+            'real threshold collection; Arrays only, since in full mode any allocation of the operation may collect); the matrix container kind x operation x position x '
+            'allocation point, growth of the Array block under the element being assigned, the last element of concat / assign; '
             'chains up to the cap, the matrix leaf-typed target x '
             'reference-bearing source for sequences and maps (direct and via copy+clear), growth after re-typing. '
             'non-trivial item = a collection (between operations or inside one) that marked at least 2 objects and swept at least 1 (exact mode) or a forced collection with at least 2 live '
@@ -1042,6 +1257,10 @@ class C01(Spec):
                     'start of the destructor; comparison / hash functions of keys that allocate (a collection inside eq / cmp during Table_Set_Move\'s displacement loop, when an '
                     'entry lives in the swap space only) are not covered',
                     'the content of a container after assign / copy (element values, types) is checked by the harness against its shadow, not proved (C04/C10 cover assign)',
+                    'allocating Assign instances: ProbeDeep_Assign allocates field by field and stores each field before it allocates the next (Deep.parts / deepD: at point k the '
+                    'first k fields are the new ones); an Assign instance that keeps a copy in a local until the end is covered a fortiori by the exact mode (which roots only the '
+                    'container and the operand) but not distinguished; KEY types with an allocating Assign (Table_Set_Move assigns the key, then the value, both in the swap '
+                    'space) and destructors of the overwritten element are not exercised; copy(container) = alloc + assign is exercised through dassign into an empty container only',
                     'harness/h_gcmark.c + lean/Driver/GcMark.lean + lean/Cello/HeapOps.lean (correspondence is testing)',
                     'the registry probe inside GC_Mark_Item / GC_Sweep is modelled as a finite map (C17 covers the registry)',
                     'exact mode replicates the 8-line root loop of GC_Mark in the harness (the real loop runs in full mode); whether the replica clears the mark bits '
@@ -1081,6 +1300,11 @@ class C01(Spec):
                    'KF-C01-array-uninit-slots, witness corpus/kf_c01_array_uninit_slots.ops); assign into a Table / Tree with a collection in the fill phase only from a Tree with '
                    'Int keys (the iteration order of a Table is C02\'s model); destructors that allocate run only inside an armed container operation, never from the release '
                    'loop of GC_Sweep (KF-C06-dtor-alloc)',
+                   'element types with an allocating Assign instance (ProbeDeep): a collection at an allocation point is generated only where the unchanged tree has published '
+                   'the element: Array push / push_at / set, List set, Tree set on an existing key, the last element of Array concat / assign, and allocation point 0 (nothing '
+                   'stored yet) of the others; NOT at a later allocation point of List_Push / List_Push_At / List_Concat / List_Assign / Table_Set_Move / Tree_Set on a new key, '
+                   'which assign the entry while it lies outside the structure (proposed finding KF-C01-unlinked-entry-assign, witness corpus/kf_c01_unlinked_entry.ops, forked '
+                   'child), and in full mode (where any allocation of the operation may trigger the collection) only operations that are modelled at every point: Arrays',
                    're-typing: assign only sequence<-sequence (Array, List; also from a heap Tuple without Box items), map<-map (Table, Tree), Tuple<-Tuple, target != source; '
                    'element types Ref / Int / String / Float / ProbeE (no Box elements: two Boxes would own one target). A heap Tuple assigned from an Array / List stores pointers '
                    'INTO the source\'s element storage (dangling after the source changes: same family as KF-C01-dangling-tuple-item) and is not generated')
@@ -1129,6 +1353,9 @@ class C01(Spec):
         for l in case.lines:
             k = l.split()[0] if l.split() else ''
             if k and k[0] != '#': acc['op_' + k] = acc.get('op_' + k, 0) + 1
+            if k in ('xin', 'cin') and '|' in l:
+                inner = l.split('|', 1)[1].split()
+                if inner: acc[f'{k}_{inner[0]}'] = acc.get(f'{k}_{inner[0]}', 0) + 1
             if k == 'new' and len(l.split()) > 2: acc['kind_' + l.split()[2][0]] = acc.get('kind_' + l.split()[2][0], 0) + 1
             if k == 'chain': acc['max_chain'] = max(acc.get('max_chain', 0), int(l.split()[2]))
         for l in core.lines_with('O ', c_out):
